@@ -6,6 +6,8 @@ Tie B: every xyz string of every written CIF is parsed inside Coq with Model/Sym
 exact operator of the space-group table; the loop selection model is compared with the rows of the CIF.
 Failing-input search: the CIF parsed by an independent minimal reader against the by-construction model (cell, Z, wavelength,
 temperature, sum formula, operators, per atom label / element / coordinates / occupancy / disorder group / Uij)."""
+import contextlib
+import io
 import os
 import re
 import shutil
@@ -127,6 +129,14 @@ def run(ctx):
             if st != 'ok' or inn:
                 common.add_violation(ctx, 'a valid file raises', case, 'ok', '%s %s' % (st, inn))
                 continue
+            if rng.random() < 0.3:
+                # an atom added through the API is appended behind everything the file held (also behind the Q-peaks)
+                xyz = [round(rng.uniform(0, 1), 5) for _ in range(3)]
+                u = [0.0512] if rng.random() < 0.5 else [0.031, 0.042, 0.053, 0.004, -0.005, 0.006]
+                with contextlib.redirect_stdout(io.StringIO()):
+                    shx.add_atom(name='C99', coordinates=xyz, element='C', uvals=list(u), part=0, sof=11.0)
+                m['atoms'].append({'label': 'C99', 'element': 'C', 'xyz': xyz, 'occ': 1.0, 'part': 0, 'u': u})
+                case['edited'] = 'add_atom(C99) after reading'
             p = os.path.join(tmp, 'x.cif')
             try:
                 shx.to_cif(p)
@@ -225,7 +235,9 @@ def run(ctx):
                 if not all(close(x, y, 1e-9) for x, y in zip(r[1:7], a['u'])):
                     bad('atom %s: Uij' % a['label'], a['u'], r[1:7])
                     break
-            loop_cases.append((m, [r[0] for r in rows], [r[0] for r in arows]))
+            ats_lit = ['{| ca_label := lit %s; ca_element := lit %s; ca_xyz := []; ca_occ := 0; ca_part := %s; ca_u := []; ca_qpeak := %s; ca_iso := %s |}' % (
+                cstr(a.fullname_short.upper()), cstr(a.element.upper()), cz(a.part.n), 'true' if a.qpeak else 'false', 'true' if a.is_isotropic else 'false') for a in shx.atoms.all_atoms]
+            loop_cases.append((ats_lit, [r[0] for r in rows], [r[0] for r in arows]))
             if k < 1:
                 common.sample(ctx, {'cif_head': cif[:700]})
     finally:
@@ -253,10 +265,7 @@ def run(ctx):
                 ctx.broken.append('correspondence: Model/Symm.v parse_component on a CIF operator component does not give the exact operator (component %d)' % (si * step + b))
     # correspondence 2: loop selection
     defs, terms = [], []
-    for i, (m, labels, alabels) in enumerate(loop_cases[:200]):
-        st, inn, shx = im.read_text(m['text'], 'quiet')
-        ats = ['{| ca_label := lit %s; ca_element := lit %s; ca_xyz := []; ca_occ := 0; ca_part := %s; ca_u := []; ca_qpeak := %s; ca_iso := %s |}' % (
-            cstr(a.fullname_short.upper()), cstr(a.element.upper()), cz(a.part.n), 'true' if a.qpeak else 'false', 'true' if a.is_isotropic else 'false') for a in shx.atoms.all_atoms]
+    for i, (ats, labels, alabels) in enumerate(loop_cases[:200]):
         defs.append('Definition a%d : list catom := %s.' % (i, clist(ats)))
         terms.append('(if list_eq_dec (list_eq_dec Ascii.ascii_dec) (map (fun r => fst (fst (fst (fst (fst r))))) (atom_loop a%d)) %s then true else false) && '
                      '(if list_eq_dec (list_eq_dec Ascii.ascii_dec) (map fst (aniso_loop a%d)) %s then true else false)' % (
